@@ -261,7 +261,7 @@ func c12EvalPlacement(s *vh.Session, l *vh.Loaded, pl placement) string {
 		sibEff = p.opposite(inherit)
 	}
 	m2 := lines(p.line(p.explicit(sibEff)))
-	got := c12Run(l, p.Conv, lines(p.line(pl.CLI)), lines(p.line(pl.Conv)), lines(p.line(pl.Method)), m2)
+	got := c12Run(l, p.Conv, cliLines(p, pl), lines(p.line(pl.Conv)), lines(p.line(pl.Method)), m2)
 	s.Eval(1)
 	if strings.HasPrefix(got.Err, "INFRA") {
 		return got.Err
@@ -360,6 +360,17 @@ func c12EvalCrossKey(s *vh.Session, l *vh.Loaded, c crossKeyCase) string {
 	return ""
 }
 
+// cliLines: what is given with -g for a placement. Every second placement with a -g value puts
+// an unrelated `-g extend ...` in front of it: the order of -g settings among themselves must
+// not decide whether the converter's own value wins.
+func cliLines(p settingProbe, pl placement) []string {
+	l := lines(p.line(pl.CLI))
+	if len(l) > 0 && (len(pl.CLI)+len(pl.Conv)+len(pl.Method))%2 == 0 {
+		return append([]string{"extend GlobalExt"}, l...)
+	}
+	return l
+}
+
 // c12CLI replays a placement through the real command line: the converter-level and
 // method-level lines are written into the source, the CLI value is passed with -g.
 func c12CLI(s *vh.Session, pl placement) string {
@@ -419,7 +430,7 @@ func c12CLI(s *vh.Session, pl placement) string {
 		return "INFRA: " + err.Error()
 	}
 	args := []string{"gen"}
-	if l := p.line(pl.CLI); l != "" {
+	for _, l := range cliLines(p, pl) {
 		args = append(args, "-g", l)
 	}
 	run := s.RunCLI(dir, append(args, "./p")...)
